@@ -51,6 +51,9 @@ func c07elemTypes(depth int) []*gty {
 	l0 := []*gty{gLeaf("i8"), gLeaf("i32")}
 	l1 := []*gty{gArr(2, l0[0]), gArr(2, l0[1]), gVec(2, l0[1]), gStruct(false, l0[0], l0[1]), gStruct(true, l0[0], l0[1]), gNamed()}
 	out := append(append([]*gty{}, l0...), l1...)
+	// a WIDE struct: 13 fields of pairwise different types, so that a struct index read in another
+	// base or width (010 as octal, u0xA as decimal, ...) lands on a field of another type.
+	out = append(out, gStruct(false, gLeaf("i8"), gLeaf("i16"), gLeaf("i32"), gLeaf("i64"), gLeaf("i128"), gLeaf("half"), gLeaf("float"), gLeaf("double"), gLeaf("i1"), gLeaf("i24"), gVec(2, gLeaf("i16")), gArr(3, gLeaf("i8")), gLeaf("i8*")))
 	if depth >= 2 {
 		for _, e := range l1 {
 			out = append(out, gArr(2, e))
@@ -98,6 +101,15 @@ func c07indexForms() []gidx {
 		{name: "vec1-i32-splat", text: "<1 x i32> <i32 1>", vec: 1, constVal: 1},
 		{name: "vec1-zeroinitializer", text: "<1 x i64> zeroinitializer", vec: 1, constVal: -1},
 		{name: "vec1-i64-const", text: "<1 x i64> <i64 1>", vec: 1, constVal: -1},
+		// spellings of constant struct indices (LLVM: decimal, also with leading zeros; u0x/s0x hexadecimal).
+		{name: "i32-8", text: "i32 8", constVal: 8},
+		{name: "i32-09", text: "i32 09", constVal: 9},
+		{name: "i32-010", text: "i32 010", constVal: 10},
+		{name: "i32-0011", text: "i32 0011", constVal: 11},
+		{name: "i32-12", text: "i32 12", constVal: 12},
+		{name: "i32-u0xA", text: "i32 u0xA", constVal: 10},
+		{name: "vec-i32-splat-010", text: "<2 x i32> <i32 010, i32 010>", vec: 2, constVal: 10},
+		{name: "vec-i32-splat-u0xC", text: "<2 x i32> <i32 u0xC, i32 u0xC>", vec: 2, constVal: 12},
 		{name: "svec-zeroinitializer", text: "<vscale x 2 x i64> zeroinitializer", vec: -2, constVal: -1},
 		{name: "svec-undef", text: "<vscale x 2 x i64> undef", vec: -2, constVal: -1},
 		{name: "nonconst-svector", text: "<vscale x 2 x i64> %svi", vec: -2, constVal: -1, param: "<vscale x 2 x i64>"},
@@ -460,7 +472,7 @@ func runC07(c *fw.Check) {
 	}
 	elems := c07elemTypes(depth)
 	cases := c07build(elems, maxIdx)
-	c.Rule = fmt.Sprintf("source element types = %d nestings (depth <=%d) of [2 x T], <2 x T>, literal/packed structs and a named struct over {i8, i32}; base = T*, <2 x T*>, <vscale x 2 x T*> in address spaces 0 and 3; ALL index lists of length <=%d over 22 index forms (i32/i64/i8 constants, i1 true, scalar zeroinitializer, undef, poison, constant expression, inrange, non-constant scalar, fixed vector zeroinitializer/splat/non-splat/undef/poison/non-constant, scalable vector zeroinitializer/undef/non-constant) that a 30-line reference model of LLVM's typing rule deems valid; llvm-as confirms the model on every case (rejected cases are dropped and counted). For each case the types computed by the parser for the instruction, by the parser for the constant expression, by ir.NewGetElementPtr and by constant.NewGetElementPtr must all spell LLVM's result type, and llvm-as must accept the printed module (every result used at its reported type). distinct = (element type, base, index list).", len(elems), depth, maxIdx-0)
+	c.Rule = fmt.Sprintf("source element types = %d nestings (depth <=%d) of [2 x T], <2 x T>, literal/packed structs and a named struct over {i8, i32}; base = T*, <2 x T*>, <vscale x 2 x T*> in address spaces 0 and 3; ALL index lists of length <=%d over 33 index forms (i32/i64/i8 constants, struct indices 8..12 of a 13-field struct spelled 8, 09, 010, 0011, 12, u0xA and as splats <i32 010, i32 010>, <i32 u0xC, i32 u0xC>, i1 true, scalar zeroinitializer, undef, poison, constant expression, inrange, non-constant scalar, fixed vector zeroinitializer/splat/non-splat/undef/poison/non-constant, scalable vector zeroinitializer/undef/non-constant) that a 30-line reference model of LLVM's typing rule deems valid; llvm-as confirms the model on every case (rejected cases are dropped and counted). For each case the types computed by the parser for the instruction, by the parser for the constant expression, by ir.NewGetElementPtr and by constant.NewGetElementPtr must all spell LLVM's result type, and llvm-as must accept the printed module (every result used at its reported type). distinct = (element type, base, index list).", len(elems), depth, maxIdx-0)
 	c.Extra["cases"] = len(cases)
 	c.Extra["element_types"] = len(elems)
 	const batch = 250
